@@ -203,6 +203,7 @@ class Analysis:
         self.analysed = []          # (def, args) actually interpreted
         self.axioms_used = set()
         self.stack = []             # defs being interpreted, outermost first
+        self.call_hook = None       # call_hook(body, bi, term, eval): every call terminator of every interpreted body
         self.store_hook = None      # store_hook(body, bi, si, stmt, eval): every assign of every interpreted body
 
     # ------------------------------------------------------------ entry
@@ -267,6 +268,8 @@ class Analysis:
             if k == "goto":
                 succ = [(t["target"], env, alias, preds)]
             elif k == "call":
+                if self.call_hook:
+                    self.call_hook(body, bi, t, lambda op, e=env: self._operand(body, e, op))
                 if t.get("target") is not None:
                     e2, a2, p2 = dict(env), dict(alias), dict(preds)
                     dest = t.get("dest")
